@@ -105,7 +105,7 @@ _SRK_PARAM_LEN = {0x1: (32, 32), 0x2: (48, 48), 0x3: (66, 66), 0x5: (2048 // 8, 
 
 
 @contract("spsdk.image.ahab.ahab_srk:SRKRecordBase.parameter_lengths")
-def _(self: Obj(SRKRecordBase, key_size=OneOf(*sorted(_SRK_PARAM_LEN)))) -> bytes:
+def _(self: SubObj(SRKRecordBase, key_size=OneOf(*sorted(_SRK_PARAM_LEN)))) -> bytes:
     returns(_SRK_PARAM_LEN[self.key_size][0].to_bytes(2, "little") + _SRK_PARAM_LEN[self.key_size][1].to_bytes(2, "little"),
             label="first-parameter-length-then-second-as-two-le16")
     pure()
@@ -332,3 +332,76 @@ def _(size: OneOf(128, 192, 256), mode: U8):
     # the wrapped key of a size-bit DEK has size/8 + 48 bytes (compute_keyblob_size); the length field covers the 8-byte head as well
     let(b=AhabBlob(size=size, mode=mode))
     ensures(b.length == 8 + AhabBlob.compute_keyblob_size(size), label="length-field-is-head-plus-keyblob-size")
+
+
+# ---- SRK record and SRK table: what the ROM hashes to compare with the fuses (C03: AHAB SRK table path) ----------------------------------------------
+from spsdk.image.ahab.ahab_srk import SRKRecord, SRKTable  # noqa: E402
+from spsdk.image.ahab.ahab_data import AHABSignHashAlgorithmV1  # noqa: E402,F811
+from specs.crypto import HASH  # noqa: E402
+
+inline("spsdk.image.ahab.ahab_srk:SRKRecordBase.format", "spsdk.image.ahab.ahab_srk:SRKRecordBase.__len__", "spsdk.image.ahab.ahab_srk:SRKTable.__len__",
+       "spsdk.image.ahab.ahab_abstract_interfaces:HeaderContainerInverted.format")
+_HASH_TAGS = OneOf(*list(SRKRecord.HASH_ALGORITHM_ENUM))
+
+
+def SRKREC(ks, fixed=False):
+    # in a table the signing / hash algorithm codes of the records are fixed to one combination (they are bytes copied through; every combination
+    # is covered by the record's own contract)
+    return Obj(SRKRecord, tag=Const(0xE1), length=U16, version=OneOf(*SRKRecord.VERSION) if not fixed else Const(SRKRecord.VERSION[0]),
+               hash_algorithm=_HASH_TAGS if not fixed else Const(list(SRKRecord.HASH_ALGORITHM_ENUM)[0]), key_size=Const(ks), srk_flags=U8,
+               crypto_params=Bytes(sum(_SRK_PARAM_LEN[ks])))
+
+
+def _mk_srk_rec(rnd):
+    ks = rnd.choice([1, 2, 3, 5])
+    r = SRKRecord(hash_type=rnd.choice(list(SRKRecord.HASH_ALGORITHM_ENUM)), key_size=ks, srk_flags=rnd.choice([0, 0x80]),
+                  crypto_params=bytes(rnd.getrandbits(8) for _ in range(sum(_SRK_PARAM_LEN[ks]))))
+    r.update_fields()
+    return r
+
+
+def srk_record_bytes(r):
+    return (bytes([r.tag]) + r.length.to_bytes(2, "little") + bytes([r.version, r.hash_algorithm.tag, r.key_size, 0, r.srk_flags])
+            + _SRK_PARAM_LEN[r.key_size][0].to_bytes(2, "little") + _SRK_PARAM_LEN[r.key_size][1].to_bytes(2, "little") + r.crypto_params)
+
+
+@contract("spsdk.image.ahab.ahab_srk:SRKRecordBase.export")
+def _(self: Union[SRKREC(1), SRKREC(2), SRKREC(3), SRKREC(5), SRKREC(6), SRKREC(7)]) -> bytes:
+    returns(srk_record_bytes(self), label="tag-length-algorithm-hash-keysize-flags-parameter-lengths-then-the-key-material")
+    pure()
+    sample_with(lambda rnd: {"self": _mk_srk_rec(rnd)})
+
+
+def SRKTAB(ks):
+    return Obj(SRKTable, tag=Const(0xD7), version=Const(0x42), length=U16, srk_records=ListOf(SRKREC(ks, True), 4))
+
+
+def _mk_srk_table(rnd):
+    t = SRKTable([_mk_srk_rec(rnd) for _ in range(4)])
+    ks = rnd.choice([1, 2, 5])
+    for r in t.srk_records:
+        r.key_size, r.crypto_params, r.length = ks, bytes(rnd.getrandbits(8) for _ in range(sum(_SRK_PARAM_LEN[ks]))), -1
+    t.update_fields()
+    return t
+
+
+def srk_table_bytes(t):
+    out = bytes([t.tag]) + t.length.to_bytes(2, "little") + bytes([t.version])
+    for r in t.srk_records:
+        out = out + srk_record_bytes(r)
+    return out
+
+
+@contract("spsdk.image.ahab.ahab_srk:SRKTable.export")
+def _(self: Union[SRKTAB(1), SRKTAB(2), SRKTAB(5)]) -> bytes:
+    returns(srk_table_bytes(self), label="table-head-then-the-four-records-in-key-order")
+    pure()
+    sample_with(lambda rnd: {"self": _mk_srk_table(rnd)})
+
+
+@contract("spsdk.image.ahab.ahab_srk:SRKTable.compute_srk_hash")
+def _(self: Union[SRKTAB(1), SRKTAB(2), SRKTAB(5)], srk_id: Const(0)) -> bytes:
+    # the value burnt into the fuses depends on the ordered records only: the digest of the exported table, whichever key signs
+    returns(HASH(SRKTable.SRK_HASH_ALGORITHM.label, srk_table_bytes(self)), label="fuse-value-is-the-digest-of-the-exported-table")
+    pure()
+    sample_with(lambda rnd: {"self": _mk_srk_table(rnd), "srk_id": 0})
